@@ -1,0 +1,62 @@
+//go:build verif
+
+// Contracts for the verification machinery in /verif (govc). Comment-only.
+
+package record
+
+// little-endian view of 8 bytes at offset o
+//@ spec le64(b []byte, o int) int64 = int64(b[o]) | int64(b[o+1])<<8 | int64(b[o+2])<<16 | int64(b[o+3])<<24 | int64(b[o+4])<<32 | int64(b[o+5])<<40 | int64(b[o+6])<<48 | int64(b[o+7])<<56
+//@ spec isLE(b []byte, o int, x int64) bool = b[o] == byte(x) && b[o+1] == byte(x>>8) && b[o+2] == byte(x>>16) && b[o+3] == byte(x>>24) && b[o+4] == byte(x>>32) && b[o+5] == byte(x>>40) && b[o+6] == byte(x>>48) && b[o+7] == byte(x>>56)
+//@ spec b2i(v bool) byte = v ? 1 : 0
+
+//@ func (*Meta).GenCodeSize
+//@   ensures s == 34
+
+//@ func (*Meta).GenCodeMarshal
+//@   requires m != nil
+//@   modifies elems(buf)
+//@   ensures r1 == nil && len(r0) == 34
+//@   ensures isLE(r0, 0, m.Created) && isLE(r0, 8, m.Modified) && isLE(r0, 16, m.Expires) && isLE(r0, 24, m.Deleted)
+//@   ensures r0[32] == b2i(m.secret) && r0[33] == b2i(m.cronjewel)
+//@   ensures cap(buf) < 34 ==> fresh(r0)
+
+//@ func (*Meta).GenCodeUnmarshal
+//@   requires m != nil
+//@   modifies m.Created, m.Modified, m.Expires, m.Deleted, m.secret, m.cronjewel
+//@   ensures len(buf) < 34 ==> r1 != nil && r0 == 0
+//@   ensures len(buf) < 34 ==> m.Created == old(m.Created) && m.Modified == old(m.Modified) && m.Expires == old(m.Expires) && m.Deleted == old(m.Deleted) && m.secret == old(m.secret) && m.cronjewel == old(m.cronjewel)
+//@   ensures len(buf) >= 34 ==> r1 == nil && r0 == 34
+//@   ensures len(buf) >= 34 ==> m.Created == le64(buf, 0) && m.Modified == le64(buf, 8) && m.Expires == le64(buf, 16) && m.Deleted == le64(buf, 24)
+//@   ensures len(buf) >= 34 ==> m.secret == (buf[32] == 1) && m.cronjewel == (buf[33] == 1)
+
+// unmarshal(marshal(m)) == m for all 2^256 * 4 metadata values
+//@ lemma L-meta-rt: forall b []byte, o int, x int64 :: isLE(b, o, x) ==> le64(b, o) == x
+//@ lemma L-meta-flag: forall v bool :: (b2i(v) == 1) == v
+
+//@ func (*Meta).IsDeleted
+//@   requires m != nil
+//@   pure
+//@   ensures r0 == (m.Deleted > 0)
+
+// position of the first byte behind the metadata block of a stored record
+//@ spec metaEnd(d []byte) int = 1 + termL(d[1:]) + 1 + int(dec(d[1:], termL(d[1:]) + 1))
+
+//@ func NewRawWrapper
+//@   modifies *
+//@   ensures r1 == nil ==> r0 != nil && fresh(r0) && r0.dbName == database && r0.dbKey == key && r0.meta != nil && fresh(r0.meta)
+//@   ensures r1 == nil ==> len(data) >= 2 && data[0] == 1 && hasVarint(data[1:]) && metaEnd(data) <= len(data)
+//@   ensures r1 == nil && r0.meta.Deleted > 0 ==> r0.Format == 1 && r0.Data == data[metaEnd(data):]
+//@   ensures r1 == nil && r0.meta.Deleted <= 0 ==> hasVarint(data[metaEnd(data):]) && uint64(r0.Format) == dec(data[metaEnd(data):], termL(data[metaEnd(data):]) + 1)
+//@   ensures r1 == nil && r0.meta.Deleted <= 0 ==> r0.Data == data[metaEnd(data) + termL(data[metaEnd(data):]) + 1:]
+//@   ensures r1 != nil ==> r0 == nil
+
+// The data section written by Marshal is stated in the terms the parser
+// (NewRawWrapper) reads it: a varint format identifier followed by the data.
+//@ func (*Wrapper).Marshal
+//@   requires w != nil
+//@   ensures r1 == nil && r0 != nil ==> hasVarint(r0) && dec(r0, termL(r0) + 1) == uint64(w.Format) && fresh(r0)
+//@   ensures r1 == nil && r0 != nil ==> len(r0) == termL(r0) + 1 + len(w.Data)
+//@   ensures r1 == nil && r0 != nil ==> forall j int :: 0 <= j && j < len(w.Data) ==> r0[termL(r0) + 1 + j] == w.Data[j]
+//@   ensures w.meta != nil && w.meta.Deleted > 0 ==> r0 == nil && r1 == nil
+//@   ensures w.meta != nil && w.meta.Deleted <= 0 && (format == 0 || format == w.Format) ==> r0 != nil && r1 == nil
+//@   ensures w.meta == nil ==> r1 != nil
